@@ -8,6 +8,7 @@ package main
 import (
 	"encoding/json"
 	"io"
+	"reflect"
 	"testing"
 	"time"
 
@@ -34,8 +35,17 @@ func mustOID(s string) git.OID {
 	return oid
 }
 
+// RegisterBlob is called through reflection so that the glue compiles
+// whatever integer type the size parameter has in the tree under test
+// (counts.Count32 before the 64-bit size fix, counts.Count64 after it).
 func (h *graphHandle) RegisterBlob(oid string, size uint64) {
-	h.g.RegisterBlob(mustOID(oid), countsNew32(size))
+	f := reflect.ValueOf(h.g.RegisterBlob)
+	arg := reflect.New(f.Type().In(1)).Elem()
+	if arg.Type().Bits() == 32 && size > 1<<32-1 {
+		size = 1<<32 - 1 // what counts.NewCount32 does
+	}
+	arg.SetUint(size)
+	f.Call([]reflect.Value{reflect.ValueOf(mustOID(oid)), arg})
 }
 
 func (h *graphHandle) RegisterTree(oid string, body []byte) error {
